@@ -33,6 +33,7 @@
 #include "kdumpfile-priv.h"
 
 #include <stdlib.h>
+#include <limits.h>
 
 #define MDF_SIGNATURE		"makedumpfile"
 #define MDF_SIG_LEN		16
@@ -56,6 +57,10 @@ struct makedumpfile_data_header {
 } __attribute__((packed));
 
 #define ALLOC_INC	32
+
+/** Maximum value of an @c off_t. */
+#define OFF_MAX	\
+	((off_t) ((((uintmax_t)1) << (sizeof(off_t) * CHAR_BIT - 1)) - 1))
 
 /** Initialize flattened dump maps for one file.
  * @param fmap  Flattened format mapping to be initialized.
@@ -125,6 +130,11 @@ flatmap_file_init(struct flattened_file_map *fmap, kdump_ctx_t *ctx,
 			fmap->offs = flatoffs;
 		}
 		flatpos += sizeof(hdr);
+		if (size > OFF_MAX - flatpos)
+			return set_error(ctx, KDUMP_ERR_CORRUPT,
+					 "Wrong flattened %s %"PRId64" at %llu",
+					 "segment size", size,
+					 (unsigned long long) flatpos);
 		flatoffs[segidx] = flatpos - pos;
 
 		range.endoff = size - 1;
